@@ -750,6 +750,92 @@ func c16Retag(r *Rng, v *Val) {
 	}
 }
 
+// addC16Batch renders SEVERAL documents first (YAML and JSON), keeps the texts, and only then reads them back: a
+// text must still be what it was when it was returned (a renderer must not hand out a buffer it re-uses)
+func addC16Batch(run *Run, docs []*Val) {
+	ws := []string{}
+	for _, d := range docs {
+		ws = append(ws, d.Wire())
+	}
+	c := Case{Recipe: Recipe{"c16batch", ws}, Desc: map[string]string{"documents": fmt.Sprint(len(docs))}, Nontrivial: true, Sig: "batch|" + strings.Join(ws, "|")}
+	verdict := "ok"
+	res, _ := safely(func() string {
+		nodes := []jd.JsonNode{}
+		for _, w := range ws {
+			nodes = append(nodes, mustNode(w))
+		}
+		ys, js, ys0, js0 := []string{}, []string{}, []string{}, []string{}
+		for _, nd := range nodes {
+			y := nd.Yaml()
+			ys = append(ys, y)
+			ys0 = append(ys0, strings.Clone(y)) // a private copy of the bytes as they were when returned
+			j := nd.Json()
+			js = append(js, j)
+			js0 = append(js0, strings.Clone(j))
+		}
+		for i := range nodes {
+			if ys[i] != ys0[i] || js[i] != js0[i] {
+				verdict = fmt.Sprintf("fail the text returned for document %d changed after later documents were rendered", i)
+				return "done"
+			}
+			back, err := jd.ReadYamlString(ys[i])
+			if err != nil || !back.Equals(nodes[i]) || !nodes[i].Equals(back) {
+				verdict = fmt.Sprintf("fail document %d read back from the YAML text kept from a batch of renderings is not Equal to it", i)
+				return "done"
+			}
+		}
+		return "done"
+	})
+	if res == "panic" {
+		verdict = "ok panic-elsewhere"
+	}
+	if strings.HasPrefix(verdict, "ok") {
+		verdict = "ok"
+	}
+	c.Probes = append(c.Probes, Probe{Kind: "direct", Rel: "C16 texts rendered in a batch stay what they were and read back to their documents", Want: verdict})
+	run.Count("batch-render")
+	run.Add(c)
+}
+
+// documents of the known-finding classes of C16 (key "<<", -0) are kept out of the batch probe
+func hasMergeKey(v *Val) bool {
+	switch v.K {
+	case KObj:
+		for k, e := range v.O {
+			if k == "<<" || hasMergeKey(e) {
+				return true
+			}
+		}
+	case KArr:
+		for _, e := range v.A {
+			if hasMergeKey(e) {
+				return true
+			}
+		}
+	}
+	return false
+}
+
+func hasNegZeroVal(v *Val) bool {
+	switch v.K {
+	case KNum:
+		return v.N == 0 && math.Signbit(v.N)
+	case KObj:
+		for _, e := range v.O {
+			if hasNegZeroVal(e) {
+				return true
+			}
+		}
+	case KArr:
+		for _, e := range v.A {
+			if hasNegZeroVal(e) {
+				return true
+			}
+		}
+	}
+	return false
+}
+
 func propC16(run *Run, n int) {
 	run.rule = "(1) every ambiguous scalar of the pool as root, array element, object value and object key; every pool number as root and element; " +
 		"(2) n random documents over the pools (strings double as keys; 6 random strings over a hostile alphabet and 6 random numbers per document), " +
@@ -770,6 +856,20 @@ func propC16(run *Run, n int) {
 	}
 	for _, d := range []*Val{VNull(), VBool(true), VBool(false), {K: KArr, Tag: "r", A: []*Val{}}, VObj(), VArr(&Val{K: KArr, Tag: "r", A: []*Val{}}, VObj(), VArr(VObj("a", VObj()))), VObj("a", &Val{K: KArr, Tag: "r", A: []*Val{}}, "b", VObj(), "c", VNull())} {
 		addC16DocCase(run, d, "pool")
+	}
+	for i := 0; i < n/50+2; i++ {
+		cfg := c16Cfg(r)
+		cfg.AllowNull = true
+		docs := []*Val{}
+		for k := 0; k < 5; k++ {
+			d := cfg.Doc(r, 0)
+			if d.K == KVoid || hasMergeKey(d) || hasNegZeroVal(d) {
+				d = VObj("name", VStr("alpha"), "version", VStr("1.10"), "n", VNum(float64(k)))
+			}
+			docs = append(docs, d)
+		}
+		docs = append(docs, VStr("no"))
+		addC16Batch(run, docs)
 	}
 	for i := 0; i < n; i++ {
 		cfg := c16Cfg(r)
